@@ -18,6 +18,11 @@ BOUNDS = {
     "thorough": {"N": 4, "K": 4, "file_faults": ("prefix", "delete", "replace", "insert"), "stride": 1},
 }
 REPL = "a\"'\\{}()~|*/ \n_0^."
+# pumped texts: a unit repeated many times (termination / blow-up: nested openers, unterminated literals and comments, operator runs)
+PUMP_UNITS = TOKENS + ["(a", "a|", "a~", "(a|", "(a~", '"\\', "/*/", "/* ", "/*x*", "*/", "'a'..", "#t=", "a{", "a{1,", "a{1}", "PUSH(a", "PEEK[", "PEEK[1..", "PEEK[1..2]", "!(", "&(", "a?", "a*",
+                        "a = {", "a = { b }", "a = { b }\n", "//", "///", "//!", "//!\n", "///\n", "\\", '"', "'", '"\\u{', '"\\x', "\n", " ", "\t", "\r\n", "\r", "\u00e9", "_", "^", "^\"", "..", "0", "-"]
+PUMP_CLOSERS = [("(", ")"), ("PUSH(", ")"), ("/*", "*/"), ("/* ", " */"), ("!(", ")"), ("(a|", ")"), ("(a~", ")"), ("(a~(", "))"), ("((", ")|a)"), ("{", "}"), ("[", "]")]
+PUMP_COUNTS = {"quick": (25, 400), "thorough": (25, 400, 6000)}
 
 
 def grammar_files():
@@ -182,6 +187,15 @@ def _chunk(payload):
                  "b = { b }\na = @{ (!b ~ ANY)* }", "b = { c }\nc = { b | \"x\" }\na = @{ (!b ~ ANY)* }", "a = _{ \"x\" ~ b? }\nb = _{ \"y\" ~ a? }", "a = _{ a }", "a = _{ b }\nb = _{ c }\nc = _{ a ~ \"x\" }",
                  "a = { (!a ~ ANY)* }", "s = _{ s | \"x\" }\na = { \"y\" | s }", "WHITESPACE = _{ WHITESPACE }", "COMMENT = _{ a }\na = _{ COMMENT }"]
         return check_texts(texts, "semantic")
+    if kind == "pumped":
+        _, units, closers, counts = payload
+        texts = []
+        for k in counts:
+            for u in units:
+                texts += [u * k, "r = { " + u * k, "r = { " + u * k + " }", 'r = { "x" } ' + u * k, u * k + ' r = { "x" }']
+            for o, c in closers:
+                texts += ["r = { " + o * k + "a" + c * k + " }", "r = { " + o * k + "a" + c * (k - 1) + " }", "r = { " + o * (k - 1) + "a" + c * k + " }", o * k + c * k + ' r = { "x" }']
+        return check_texts(texts, "pumped", loader=load_limited)
     if kind == "huge-counts":
         texts = ['a = { "x"{99999999999999999999} }', 'a = { "x"{4294967296} }', 'a = { "x"{,4294967296} }', 'a = { "x"{4294967296,} }', 'a = { "x"{1,4294967296} }']
         return check_texts(texts, "huge-counts", loader=load_limited)
@@ -192,6 +206,10 @@ def run(tier: str) -> int:
     b = BOUNDS[tier]
     rep = common.Report("C11", tier, "fault_enumeration")
     payloads = [("escapes",), ("semantic",), ("huge-counts",)]
+    for i in range(0, len(PUMP_UNITS), 3):
+        payloads.append(("pumped", PUMP_UNITS[i:i + 3], [], PUMP_COUNTS[tier]))
+    for oc in PUMP_CLOSERS:
+        payloads.append(("pumped", [], [oc], PUMP_COUNTS[tier]))
     for n in range(0, b["N"] + 1):
         if n <= 2:
             payloads.append(("strings", n, [""]))
